@@ -16,6 +16,7 @@ def fnOf? (j : Json) : Option Fn :=
   | .arr #[.str "ublock", .str f] => some (.userFin true f)
   | .arr #[.str "uallow", .str f] => some (.userFin false f)
   | .arr #[.str "setStatus", .str k, v] => (toJ v).map (.setStatus k)
+  | .arr #[.str "uappend", .str k, v] => (toJ v).map (.appendStatus k)
   | _ => none
 
 def fnJson : Fn → Json
@@ -24,6 +25,7 @@ def fnJson : Fn → Json
   | .userFin true f => .arr #[.str "ublock", .str f]
   | .userFin false f => .arr #[.str "uallow", .str f]
   | .setStatus k v => .arr #[.str "setStatus", .str k, ofJ v]
+  | .appendStatus k v => .arr #[.str "uappend", .str k, ofJ v]
 
 def fnsOf? (j : Json) : Option (List Fn) := do (← jArr? j).mapM fnOf?
 
